@@ -357,7 +357,7 @@ func storeSnapshot(st *sqlite.Store, maxRoot int) snapshot {
 	}
 	// sectors
 	{
-		var out []any
+		var out, loose []any
 		top := maxRoot
 		if top > maxSnapRt {
 			top = maxSnapRt
@@ -372,8 +372,10 @@ func storeSnapshot(st *sqlite.Store, maxRoot int) snapshot {
 				loc = storage.SectorLocation{}
 			}
 			out = append(out, []any{r, loc.Volume, loc.Index, errClass(err), has, errClass(err2), refs.Contracts, refs.TempStorage, errClass(err3)})
+			loose = append(loose, []any{r, loc.Volume, errClass(err), has, errClass(err2), refs.Contracts, refs.TempStorage, errClass(err3)})
 		}
 		s["sectors"] = js(out)
+		s["sectors_noidx"] = js(loose)
 	}
 	// accounts
 	{
